@@ -60,6 +60,10 @@ def build(src, out, flags=(), std="c++20", opt="-O1", timeout=900, include_repo=
         # C02: the same drivers, built with ASan + UBSan (a stop inside a valid call is a trap/crash deviation)
         flags = list(flags) + ["-fsanitize=address,undefined", "-fno-sanitize-recover=all", "-g"]
         out = out + "_san"
+    if os.environ.get("VERIF_COVERAGE") and include_repo and "-fsyntax-only" not in flags:
+        # binding coverage (tools/bindcov.py): which lines of the anchored headers do the drivers execute?
+        flags = list(flags) + ["--coverage", "-fprofile-update=atomic"]
+        opt = "-O0"
     outp = os.path.join(workdir("bin"), out)
     cmd = ["g++", "-std=" + std, opt, "-w", "-I" + HARNESS]
     if include_repo:
